@@ -72,7 +72,14 @@ const (
 	// with the histogram bucket bound values.
 	DefaultHistogramBucketTagPrecision = uint(6)
 
-	_emitMetricBatchOverhead    = 19
+	// _emitMetricBatchOverhead is the most that a message adds to the
+	// serialized batch it carries (which NewReporter measures with an empty
+	// metric list): the message header (version and type, sequence id, the
+	// method name), the field header and stop byte of the call's argument
+	// struct, and the growth of the metric list's header once the list is
+	// not empty. It is 33 bytes for the binary protocol (4+4+17+4, 3+1) and
+	// at most 32 for the compact one (1+1+5+1+17, 1+1, 5).
+	_emitMetricBatchOverhead    = 33
 	_minMetricBucketIDTagLength = 4
 	_timeResolution             = 100 * time.Millisecond
 )
@@ -410,11 +417,9 @@ func (r *reporter) AllocateHistogram(
 				durationUpperBound: pair.UpperBoundDuration(),
 				metric:             &counter,
 			}
-			delta = len(r.bucketIDTagName) + len(r.bucketTagName) + len(hbucket.bucketID)
 		)
 
 		hbucket.metric.metric.Tags = mtags
-		hbucket.metric.size = r.calculateSize(hbucket.metric.metric)
 
 		if isDuration {
 			bname := r.stringInterner.Intern(
@@ -422,7 +427,7 @@ func (r *reporter) AllocateHistogram(
 					r.durationBucketString(pair.UpperBoundDuration()),
 			)
 			hbucket.bucket = bname
-			hbucket.metric.size += int32(delta + len(bname))
+			hbucket.metric.size = r.calculateBucketSize(hbucket)
 			cachedDurationBuckets = append(cachedDurationBuckets, hbucket)
 		} else {
 			bname := r.stringInterner.Intern(
@@ -430,7 +435,7 @@ func (r *reporter) AllocateHistogram(
 					r.valueBucketString(pair.UpperBoundValue()),
 			)
 			hbucket.bucket = bname
-			hbucket.metric.size += int32(delta + len(bname))
+			hbucket.metric.size = r.calculateBucketSize(hbucket)
 			cachedValueBuckets = append(cachedValueBuckets, hbucket)
 		}
 
@@ -497,6 +502,20 @@ func (r *reporter) newMetric(
 
 	m.Tags = r.convertTags(tags)
 	return m
+}
+
+// calculateBucketSize measures a histogram bucket's metric the way it is
+// emitted: with the bucket id and bucket tags appended to its own tags.
+func (r *reporter) calculateBucketSize(b cachedHistogramBucket) int32 {
+	m := b.metric.metric
+	tags := make([]m3thrift.MetricTag, 0, len(m.Tags)+2)
+	tags = append(tags, m.Tags...)
+	m.Tags = append(
+		tags,
+		m3thrift.MetricTag{Name: r.bucketIDTagName, Value: b.bucketID},
+		m3thrift.MetricTag{Name: r.bucketTagName, Value: b.bucket},
+	)
+	return r.calculateSize(m)
 }
 
 func (r *reporter) calculateSize(m m3thrift.Metric) int32 {
